@@ -471,7 +471,7 @@ func genC09(rt *rapid.T) C09Case {
 		}
 		npaths := rapid.IntRange(0, 4).Draw(rt, "npaths")
 		if rapid.IntRange(0, 11).Draw(rt, "manypaths") == 0 {
-			npaths = rapid.IntRange(9, 13).Draw(rt, "npathsmany") // two-digit item numbers
+			npaths = rapid.SampledFrom([]int{9, 10, 11, 13, 17, 33, 65, 101, 129}).Draw(rt, "npathsmany") // two- and three-digit item numbers
 		}
 		for i, n := 0, npaths; i < n; i++ {
 			others = append(others, genPathRec(rt, tk, i))
